@@ -119,9 +119,13 @@ func (it *NativeIterator) Merge(oldval []byte) (val []byte, err error) {
 	oldTS := h.Timestamp
 	newTS := header.Timestamp(entry.TimestampNano)
 	actualOldVal := appVal
+	// With equal timestamps and equal values, a deletion must win over a live
+	// entry regardless of which of the two is already stored, or two instances
+	// would each keep their own version forever.
+	deletionOfLive := it.entryDeleted(entry) && !h.Flags.IsDeleted()
 	if newTS == 0 {
 		// Special handling for main to shadow copy that uses a default timestamp
-		if bytes.Equal(actualOldVal, entryVal) {
+		if bytes.Equal(actualOldVal, entryVal) && !deletionOfLive {
 			return oldval, nil // do not update timestamp
 		}
 		newTS = it.DefaultTimestampNano
@@ -130,13 +134,22 @@ func (it *NativeIterator) Merge(oldval []byte) (val []byte, err error) {
 		// Current LMDB value has a higher timestamp, so keep that one
 		return oldval, nil
 	}
-	if newTS == oldTS && bytes.Compare(actualOldVal, entryVal) <= 0 {
+	if newTS == oldTS {
 		// Same timestamp, lexicographic lower app value wins for deterministic values,
-		// so return the old value if the plain value was lower or equal.
-		return oldval, nil
+		// so return the old value if the plain value was lower, or equal unless
+		// the entry deletes it.
+		cmp := bytes.Compare(actualOldVal, entryVal)
+		if cmp < 0 || (cmp == 0 && !deletionOfLive) {
+			return oldval, nil
+		}
 	}
 	// Update LMDB value
 	return it.addHeader(entryVal, newTS, entry.MaskedFlags(), false)
+}
+
+// entryDeleted reports if an entry will be stored as deleted by addHeader.
+func (it *NativeIterator) entryDeleted(entry snapshot.KV) bool {
+	return entry.MaskedFlags().IsDeleted() || (len(entry.Value) == 0 && it.FormatVersion < 2)
 }
 
 func (it *NativeIterator) Clean(oldval []byte) (val []byte, err error) {
